@@ -97,4 +97,10 @@ def searchL2 (vs : List Verify) (infos : List Info) (dc : Nat) : Res :=
         | none => .err
   | _, _ => .err
 
+/-- `GetFirstGERAfterL1InfoTreeIndex` as the API uses it: the smallest injected L1 info leaf index at or after `i` -/
+def firstInjectedAfter (injected : List Nat) (i : Nat) : Option Nat :=
+  (injected.filter (fun k => decide (i ≤ k))).foldl (fun acc k => match acc with
+    | none => some k
+    | some a => some (min a k)) none
+
 end Aggkit.BridgeAPI
